@@ -230,3 +230,51 @@ func (mc *modelCase) compare(c *fw.Case, m *refmodel.Model, rs *jsonschema.Resol
 	}
 	return want, true
 }
+
+// keywordCoverage summarises the per-keyword and pairwise counters after a model-compared run and flags
+// a run that never saw some asserting keyword decide a verdict (the workload, not the library, is then lacking).
+func keywordCoverage(a *fw.Agg, draft7 bool) {
+	var never []string
+	asserting := []string{}
+	for kw, g := range kwGroup {
+		switch {
+		case g == "logic" && (kw == "then" || kw == "else" || kw == "$dynamicRef"):
+			if draft7 && kw == "$dynamicRef" {
+				continue
+			}
+		case draft7 && (kw == "prefixItems" || kw == "minContains" || kw == "maxContains" || kw == "dependentRequired" || kw == "dependentSchemas" || kw == "unevaluatedItems" || kw == "unevaluatedProperties" || kw == "$dynamicRef"):
+			continue
+		case !draft7 && (kw == "additionalItems" || kw == "dependencies"):
+			continue
+		}
+		asserting = append(asserting, kw)
+	}
+	sort.Strings(asserting)
+	for _, kw := range asserting {
+		if a.Counters["decided:"+kw] == 0 {
+			never = append(never, kw)
+		}
+	}
+	possible, seen := 0, 0
+	var empty []string
+	for _, k1 := range asserting {
+		for _, k2 := range asserting {
+			if k1 != k2 && kwGroup[k1] == kwGroup[k2] && kwGroup[k1] != "logic" {
+				possible++
+				if a.Counters["pair:"+k1+"+"+k2] > 0 {
+					seen++
+				} else if len(empty) < 40 {
+					empty = append(empty, k1+"+"+k2)
+				}
+			}
+		}
+	}
+	a.Extra["keywords_never_deciding"] = never
+	a.Extra["same_group_keyword_pairs"] = map[string]any{"possible_ordered_pairs": possible, "observed_with_second_deciding": seen, "examples_never_observed": empty}
+	if len(never) > 0 {
+		a.AddInconclusive("some asserting keyword never decided a verdict in this run: " + strings.Join(never, ","))
+	}
+	if possible > 0 && float64(possible-seen)/float64(possible) > 0.05 {
+		a.AddInconclusive(fmt.Sprintf("%d of %d same-group keyword pairs were never observed together with the second one deciding", possible-seen, possible))
+	}
+}
